@@ -56,6 +56,10 @@ REQUIRE = {
     "ops:dive": 150,
     "clause_thumb_top_listbox_cursor_shown": 150,
     "clause_thumb_top_listbox_cursor_shown_scrolled(p>0)": 150,
+    "lb_frames:focus-widget-is-falsy": 150,
+    "lb_frames:focus-widget-object-at-several-positions": 250,
+    "lb_frames:body-has-falsy-item_scrolled(p>0)": 400,
+    "lb_frames:body-has-shared-widget-object": 500,
     "clause_thumb_listbox_relative_mode": 1000,
     "clause_thumb_custom_walker_relative_mode": 200,
     "clause_thumb_custom_walker_row_mode": 200,
@@ -87,7 +91,9 @@ ASSUMES = [
     "'handled events are not also used for scrolling' is judged only for events a spy reported as handled while the wrapped content shows no cursor (Scrollable's follow-the-cursor adjustment after an Edit consumed a key is not counted as scrolling by that key)",
     "text cells are compared, attributes are not",
     "the bar width the oracle uses is the one the scrollbar_width property reports after construction / after the setter (documented clamp max(1, n)); thumb and trough characters have no public setter and are only chosen at construction",
-    "ListBox items always have >= 1 row; list walkers are SimpleListWalker / SimpleFocusListWalker and a sized user ListWalker (get_focus/set_focus/get_next/get_prev/positions/__len__) with non-index positions (offset / stride ints, strings, tuples); thumb clauses are judged from the row geometry read off the canvas, never from position values",
+    "ListBox bodies may hold the same widget object at several positions and falsy widgets (empty Pile 0 rows, empty Columns / GridFlow 1 blank row, a spy with __len__ == 0 that has rows); the harness never explicitly focuses a 0-row item (C07), and any exception whose first listbox.py frame is not one of the scrolling-protocol methods is out of scope (C07)",
+    "a blank trough without thumb beside blank content is indistinguishable from 'no bar': only in that case the ScrollBar's stored child size decides how the frame is read",
+    "ListBox items otherwise have >= 1 row; list walkers are SimpleListWalker / SimpleFocusListWalker and a sized user ListWalker (get_focus/set_focus/get_next/get_prev/positions/__len__) with non-index positions (offset / stride ints, strings, tuples); thumb clauses are judged from the row geometry read off the canvas, never from position values",
 ]
 
 TOPNAME = {"S": "Scrollable", "SB": "ScrollBar+Scrollable", "LB": "ScrollBar+ListBox"}
@@ -166,6 +172,18 @@ class Session:
             return S.RowSpy(r[1], r[2], r[3], r[4], r[5], log=self.log, name=f"rowspy@{r[1]}")
         if k == "wrapspy":
             return S.WrapSpy(r[1], r[2], r[3], r[4], r[5], log=self.log, name=f"wrapspy@{r[1]}")
+        if k == "falsyspy":
+            return S.FalsyRowSpy(r[1], r[2], r[3], r[4], r[5], log=self.log, name=f"falsyspy@{r[1]}")
+        if k == "emptypile":  # 0 rows, falsy
+            return u.Pile([])
+        if k == "emptycolumns":  # 1 blank row, falsy
+            return u.Columns([])
+        if k == "emptygridflow":  # 1 blank row, falsy
+            return u.GridFlow([], 5, 1, 0, "left")
+        if k == "shared":  # ["shared", key, recipe]: the SAME widget object wherever the key is used again
+            if r[1] not in self.shared:
+                self.shared[r[1]] = self.make(r[2])
+            return self.shared[r[1]]
         if k == "cursorspy":
             return S.CursorSpy(r[1], r[2], r[3], r[4], log=self.log, name=f"cursorspy@{r[1]}")
         if k == "fixedspy":
@@ -175,6 +193,7 @@ class Session:
     def build(self, content, wrap):
         u = self.u
         self.ckind = content[0]
+        self.shared = {}
         self.items = None
         self.lb = None
         self.scr = None
@@ -192,8 +211,8 @@ class Session:
             else:
                 body = (u.SimpleFocusListWalker if wk != "simple" else u.SimpleListWalker)(list(self.items))
             self.lb = u.ListBox(body)
-            if self.items:
-                self.lb.set_focus(self.poskey(content[2] % len(self.items)))
+            if self.items and self.focusable(content[2] % len(self.items)) is not None:
+                self.lb.set_focus(self.poskey(self.focusable(content[2] % len(self.items))))
             self.base = inner = self.lb
             self.cw = None
         else:
@@ -221,6 +240,16 @@ class Session:
     def seq(self):
         """the live sequence holding the Pile / ListBox items"""
         return self.cw.contents if self.kind != "LB" else self.lb.body
+
+    def focusable(self, pos):
+        """first index >= pos (cyclically) whose item is not a 0-row placeholder: explicitly focusing a 0-row item is
+        C07's domain (ListBox cannot place it), so the harness never asks for it"""
+        n = len(self.items)
+        for d in range(n):
+            it = self.items[(pos + d) % n]
+            if not (isinstance(it, self.u.Pile) and not it.contents):
+                return (pos + d) % n
+        return None
 
     def target(self, path):
         if path == -1 or self.items is None:
@@ -255,7 +284,9 @@ class Session:
             if self.items:
                 pos = op[1] % len(self.items)
                 if self.kind == "LB":
-                    self.lb.set_focus(self.poskey(pos))
+                    pos = self.focusable(pos)
+                    if pos is not None:
+                        self.lb.set_focus(self.poskey(pos))
                 else:
                     self.cw.focus_position = pos
         elif k == "settext":
@@ -351,18 +382,37 @@ class Session:
                 f"a {what} event the wrapped spy reported as handled moved the view from p={prev['P'][0]} to p in {obs['P']}",
             )
 
+    def lb_shape(self):
+        """abstract shape of a ListBox body for signatures: is the focus widget falsy / present at several positions"""
+        if self.kind != "LB" or not len(self.lb.body):
+            return ""
+        fw = self.lb.body.get_focus()[0]
+        if fw is None:
+            return ""
+        try:
+            falsy = not fw
+        except Exception:  # noqa: BLE001
+            falsy = False
+        if falsy:
+            return "|focus-widget-is-falsy"
+        if sum(1 for x in self.lb.body if x is fw) > 1:
+            return "|focus-widget-object-at-several-positions"
+        return ""
+
     def listbox_internal(self, e):
         """an exception raised inside listbox.py although the ListBox was handed a valid size: ListBox's own
         focus/paging machinery (C07), not the scrolling protocol -> not judged here; the history stops"""
-        if self.kind != "LB" or self.w <= self.bw:
+        if self.kind != "LB":
             return False
-        tb, last = e.__traceback__, None
-        while tb is not None:
-            fn = tb.tb_frame.f_code.co_filename
-            if "/urwid/" in fn:
-                last = (fn, tb.tb_frame.f_code.co_name)
+        # the first listbox.py frame on the way down decides: entered through the scrolling protocol (C20) or through
+        # ListBox's own render / keypress / mouse_event / focus handling (incl. whatever that calls in an item widget)
+        tb, first = e.__traceback__, None
+        while tb is not None and first is None:
+            code = tb.tb_frame.f_code
+            if code.co_filename.endswith("/urwid/widget/listbox.py"):
+                first = code.co_name
             tb = tb.tb_next
-        if last and last[0].endswith("listbox.py") and last[1] not in ("get_scrollpos", "rows_max", "require_relative_scroll", "get_first_visible_pos", "get_visible_amount"):
+        if first and first not in ("get_scrollpos", "rows_max", "require_relative_scroll", "get_first_visible_pos", "get_visible_amount"):
             self.c("out_of_scope:listbox-internal-error(C07)")
             self.nexc = MAX_EXC
             return True
@@ -479,6 +529,8 @@ class Session:
             self.top._invalidate()
             self.base._invalidate()
             return None
+        if self.kind == "LB" and self.lb_shape():
+            self.c("lb_frames:" + self.lb_shape()[1:])  # rendered frames (judged or reported) with that body shape
         spy_renders = {}
         for e in self.log[mark:]:
             if e[0] == "render":
@@ -515,6 +567,12 @@ class Session:
             if circular:
                 self.c("bar_circular_case(taller-at-full-width-only)")
             okB = bool(B["P"]) and (B["total"] > h or circular) and "?" not in barseq
+            if okB and "T" not in barseq and self.trough == " " and A["P"] and not okA:
+                # a blank trough without thumb beside blank content reads the same as "no bar at all": the frame is
+                # ambiguous, so (only here) ask the ScrollBar which width it handed to its child
+                self.c("ambiguous_blank_bar_resolved_by_child_size")
+                if getattr(self.top, "_original_widget_size", (None,))[0] == w:
+                    okB = False
             if okB and (not okA or "T" in barseq):
                 drawn, m = True, B
                 self.c("clause_bar_present")
@@ -529,7 +587,7 @@ class Session:
             else:
                 self.c("clause_slice")
                 if A["P"] and A["total"] > h:
-                    self.viol(f"C20|{self.topname}|bar-missing|content-taller-than-view|content={self.ckind}", f"total={A['total']} h={h} shown={shown!r}")
+                    self.viol(f"C20|{self.topname}|bar-missing|content-taller-than-view|content={self.ckind}{self.lb_shape()}", f"total={A['total']} h={h} shown={shown!r}")
                 elif B["P"] and "?" not in barseq and B["total"] <= h:
                     self.viol(f"C20|{self.topname}|bar-drawn|content-fits-view|content={self.ckind}", f"total={B['total']} h={h} shown={shown!r}")
                 elif "T" in barseq and "?" not in barseq:
@@ -555,6 +613,12 @@ class Session:
             self.c("shape:total==h")
         elif total == h + 1:
             self.c("shape:total==h+1")
+
+        if self.kind == "LB":
+            if any(not x for x in self.lb.body):
+                self.c("lb_frames:body-has-falsy-item" + ("_scrolled(p>0)" if P[0] > 0 else "_at-top"))
+            if len({id(x) for x in self.lb.body}) < len(self.lb.body):
+                self.c("lb_frames:body-has-shared-widget-object")
 
         # ---- clause: reported position
         self.c("clause_pos")
@@ -620,6 +684,9 @@ class Session:
                 mode = ""
                 if self.kind == "LB":
                     mode = "|relative-mode" if self.lb.require_relative_scroll((w, h), focus) else "|row-mode"
+                    first = next(iter(self.lb.body), None)
+                    if p == 0 and first is not None and first.rows((cwid,), False) == 0:
+                        mode += "|list-starts-with-a-zero-row-item"
                 self.viol(f"C20|{self.topname}|thumb-top|{how}{mode}", f"bar={barseq!r} p={p} P={P} total={total} h={h}")
             # the very same canvas object as the previous frame although total rows / offset changed: the ScrollBar
             # canvas was served from CanvasCache across a change that happened off screen (classification only)
@@ -818,6 +885,39 @@ def core_cases(quick):
                 wrap = {"kind": "LB", "side": "right", "bw": 1, "thumb": "#", "trough": ".", "walker": scheme}
                 ops = [["sweep", "keys"], ["key", "page down"], ["key", "end"], ["key", "page up"], ["setfocus", 1], ["del", 0], ["key", "home"], ["add", 0, ["rowspy", 300, 1, True, [], []]], ["key", "home"], ["sweep", "wheel"]]
                 out.append({"content": ["listbox", items, 0], "wrap": wrap, "size": [7, h], "focus": True, "ops": ops})
+    # the SAME widget object at several positions of a ListBox in row mode (shared divider / the same Text thrice),
+    # focus on each occurrence and on the items between
+    walkers = ("focus", "simple", "offset1", "str")
+    k = 0
+    for shared_inner in (["rowspy", 0, 1, False, [], []], ["rowspy", 0, 2, True, [], []], ["text", ["same text"], "space", "left"]):
+        for h, n in ((4, 10), (3, 7), (2, 5)):
+            for fpos in (0, 2, 4, n - 1):
+                items = [["shared", "D", shared_inner] if i % 2 == 0 else ["rowspy", 10 * i, 1, bool(i % 4 == 1), [], []] for i in range(n)]
+                wrap = {"kind": "LB", "side": "right", "bw": 1, "thumb": "#", "trough": ".", "walker": walkers[k % 4]}
+                k += 1
+                ops = [["sweep", "keys"], ["setfocus", fpos], ["sweep", "wheel"], ["key", "end"], ["setfocus", fpos], ["key", "page up"], ["setfocus", 2]]
+                out.append({"content": ["listbox", items, fpos], "wrap": wrap, "size": [12, h], "focus": bool(k % 3), "ops": ops})
+    # falsy widgets in a ListBox in row mode: empty Pile (0 rows), empty Columns / GridFlow (1 blank row), a spy with
+    # __len__ == 0 that has rows; at the focus position, above and below it
+    k = 0
+    for falsy in (["emptypile"], ["emptycolumns"], ["emptygridflow"], ["falsyspy", 300, 2, True, [], []], ["falsyspy", 300, 1, False, [], []]):
+        for where in ("first", "middle", "last", "all"):
+            for h, n in ((4, 10), (2, 6)):
+                items = [["rowspy", 10 * i, 1, bool(i % 2), [], []] for i in range(n)]
+                if where == "all":
+                    if falsy[0] != "falsyspy":
+                        continue
+                    items = [["falsyspy", 10 * i, 1, bool(i % 2), [], []] for i in range(n)]
+                else:
+                    items[{"first": 0, "middle": n // 2, "last": n - 1}[where]] = falsy
+                wrap = {"kind": "LB", "side": "left", "bw": 1, "thumb": "#", "trough": ".", "walker": walkers[k % 4]}
+                k += 1
+                for fpos in (0, n // 2, n - 1):
+                    ops = [["sweep", "keys"], ["setfocus", fpos], ["key", "home"], ["sweep", "wheel"], ["setfocus", fpos], ["key", "page up"], ["key", "page down"], ["key", "end"]]
+                    out.append({"content": ["listbox", items, fpos], "wrap": wrap, "size": [8, h], "focus": True, "ops": ops})
+    # relative mode with a 0-row first item (empty Pile placeholder)
+    items = [["emptypile"]] + [["rowspy", 10 * i, 1, bool(i % 2), [], []] for i in range(8)]
+    out.append({"content": ["listbox", items, 1], "wrap": lbwrap, "size": [4, 2], "focus": True, "ops": [["sweep", "keys"], ["key", "home"], ["sweep", "wheel"]]})
     # urwid.Text with MORE rows at the wider width (4 rows at 10 columns, 3 rows at 9): the circular bar case
     text = ["text", ["A0 B1", "C2", "D3 E4 F5 G6 H7 I8", "J9", "K10 L11 M12 N13 O14 P15", "Q16R17r17q"], "space", "left"]
     wrap = {"kind": "SB", "side": "left", "bw": 1, "thumb": "#", "trough": "."}
